@@ -69,12 +69,13 @@ ANCHORS = [
 FLOORS = {
     "quick": {"evaluations": 300, "bootstrap_reads_compared": 5000, "events_delivered": 300, "event_reads_compared": 4000,
               "tracking_probes": 250, "name_lookups_compared": 10000, "socks_endpoint_checks": 600,
+              "attach_events_delivered": 100,
               "reach:txtorcon.torconfig:TorConfig._conf_changed": 400,
               "reach:txtorcon.torconfig:TorConfig._do_setup": 300,
               "reach:txtorcon.torconfig:TorConfig._get_defaults": 300},
     "thorough": {"evaluations": 5000, "bootstrap_reads_compared": 80000, "events_delivered": 4000,
                  "event_reads_compared": 60000, "tracking_probes": 3500, "name_lookups_compared": 150000,
-                 "socks_endpoint_checks": 8000, "reach:txtorcon.torconfig:TorConfig._conf_changed": 5000},
+                 "socks_endpoint_checks": 8000, "attach_events_delivered": 1500, "reach:txtorcon.torconfig:TorConfig._conf_changed": 5000},
 }
 
 
@@ -186,6 +187,14 @@ def gen_case(rnd, mode):
             ev = gen_event(rnd, table, valued_reset=False)     # GETCONF must stay answerable per type afterwards
             case["attach_events"].append({"at": at, "when": rnd.choice(["before-reply", "after-reply"]),
                                           "items": ev["items"]})
+        ports = [i for i, o in enumerate(table) if o["type"] == CT.PORTLINES]
+        if rnd.random() < 0.35:
+            # aimed at the option whose GETCONF was just answered (a *Port fetch may need a second round trip)
+            i = rnd.choice(ports)
+            vals = CT.gen_values(rnd, CT.PORTLINES, rnd.choice(["single", "multi"]))
+            case["attach_events"] = [e for e in case["attach_events"] if e["at"] != i] + \
+                [{"at": i, "when": "after-reply", "items": [[table[i]["name"], v] for v in vals]}]
+            case["attach_events"].sort(key=lambda e: e["at"])
     listy = [o for o in table if CT.is_listy(o["type"])]
     scalars = [o for o in table if not CT.is_listy(o["type"])]
     for i in range(nsteps):
